@@ -97,11 +97,11 @@ func genShape(r *vx.Rand) shape {
 	case x < 16:
 		s.ageMs = 25*3600*1000 + int64(r.Intn(3600*1000))
 		s.wideWindow = r.Chance(65)
-		// NOTE (reported as a suspect, reproduce with HUBRUN_OLD_ASYNC=1): a transaction older than MaxTxnTimeUse (24 h) that
-		// commits in ASYNC-COMMIT mode has all its prewrites acknowledged with a min_commit_ts — it is committed — and only then
-		// runs into the "txn takes too much time" check: Commit answers a definite error and sends a rollback, while any
-		// reader that recovers the locks first commits the transaction.  Old transactions therefore use 2PC / 1PC here.
-		if os.Getenv("HUBRUN_OLD_ASYNC") == "" && (s.mode == "async" || s.mode == "both") {
+		// A transaction older than MaxTxnTimeUse (24 h) that commits in ASYNC-COMMIT mode has all its prewrites acknowledged
+		// with a min_commit_ts — it is committed — before the "txn takes too much time" check: that check used to answer a
+		// definite error and roll back while readers committed the transaction (repaired in /repo, see known_findings.json
+		// C03-aged-async-commit-definite-error).  HUBRUN_OLD_ASYNC=0 keeps old transactions on 2PC / 1PC.
+		if os.Getenv("HUBRUN_OLD_ASYNC") == "0" && (s.mode == "async" || s.mode == "both") {
 			s.mode = pick(r, []string{"2pc", "1pc"})
 		}
 	}
